@@ -59,12 +59,27 @@ class PandasSchemaBackend(BaseSchemaBackend):
             pandas_obj_subsample.append(
                 check_obj.sample(sample, random_state=random_state)
             )
-        return (
-            check_obj
-            if not pandas_obj_subsample
-            else pd.concat(pandas_obj_subsample).pipe(
-                lambda x: x[~x.index.duplicated()]
-            )
+        if not pandas_obj_subsample:
+            return check_obj
+
+        if isinstance(check_obj, (pd.DataFrame, pd.Series)):
+            # de-duplicate the rows selected more than once by their position,
+            # not by their index label: labels may be repeated.
+            positions = pd.Series(range(len(check_obj)))
+            selected_positions = []
+            if head is not None:
+                selected_positions.append(positions.head(head))
+            if tail is not None:
+                selected_positions.append(positions.tail(tail))
+            if sample is not None:
+                selected_positions.append(
+                    positions.sample(sample, random_state=random_state)
+                )
+            keep = ~pd.concat(selected_positions).duplicated().to_numpy()
+            return pd.concat(pandas_obj_subsample)[keep]
+
+        return pd.concat(pandas_obj_subsample).pipe(
+            lambda x: x[~x.index.duplicated()]
         )
 
     def run_parser(
